@@ -10,6 +10,8 @@ for f in os.listdir(src):
         continue
     if os.path.isfile(os.path.join(src, f)):
         shutil.copy(os.path.join(src, f), dst)
+    elif os.path.isdir(os.path.join(src, f)):
+        shutil.copytree(os.path.join(src, f), os.path.join(dst, f), dirs_exist_ok=True, ignore=shutil.ignore_patterns('target'))
 head = subprocess.run(['git', '-C', '/repo', 'rev-parse', '--short', 'HEAD'], capture_output=True, text=True).stdout.strip()
 suite = ''
 p = os.path.join(src, 'confirm_suite_patched.log')
